@@ -856,6 +856,8 @@ class Interp(object):
         sequences share one fixpoint (one set of loop-head states)."""
         res = []
         abstract = []
+        itkey = "@it:%d" % id(node)
+        held = False
         for st in states:
             for (s, k, it) in self.eval(st, node.iter):
                 if k != "val":
@@ -865,6 +867,25 @@ class Interp(object):
                     if k2 != "val":
                         res.append((s2, k2, it2))
                         continue
+                    if isinstance(it2, Ref) and s2.obj(it2).kind == "iterator":
+                        io = s2.obj(it2)
+                        s2.frames[-1][itkey] = it2          # keeps the iterator object alive while it is only held by the loop
+                        held = True
+                        if "@op" in io.fields:
+                            if _lazyiter.leaves_concrete(s2, it2):
+                                res.extend(self.loop_iterator(s2, node, it2))
+                            else:
+                                aseq = _lazyiter.abstract_seq_of(self, s2, it2, node)
+                                if aseq is None:
+                                    raise Unsupported("loop over a lazy iterator with abstract sources at %s" % self.loc(node))
+                                abstract.append((s2, aseq, None))
+                        elif io.items is not None:
+                            res.extend(self.loop_iterator(s2, node, it2))
+                        elif io.fields.get("@done"):
+                            res.extend(self.loop_concrete(s2, node, []))
+                        else:
+                            abstract.append((s2, io.fields["@seq"], it2))
+                        continue
                     kind, seq = self.iter_values(s2, it2, node)
                     if kind == "concrete" and self.live_list_iteration and isinstance(it2, Ref) and s2.obj(it2).kind == "list" \
                             and s2.obj(it2).items is not None:
@@ -872,11 +893,15 @@ class Interp(object):
                     elif kind == "concrete":
                         res.extend(self.loop_concrete(s2, node, seq))
                     else:
-                        abstract.append((s2, seq))
+                        abstract.append((s2, seq, None))
         if abstract:
             if getattr(self, "_in_comprehension", 0):
                 raise _absexpr._AbstractIteration()
             res.extend(self.loop_abstract(abstract, node))
+        if held:
+            for (s, k, v) in res:
+                if s.frames and itkey in s.frames[-1]:
+                    del s.frames[-1][itkey]
         return res
 
     def resolve_iter(self, st, it, node):
@@ -913,6 +938,29 @@ class Interp(object):
             o = st.obj(it)
             if o.kind in ("list", "set") and o.items is not None:
                 return ("concrete", list(o.items))
+            if o.kind == "iterator":
+                if "@op" in o.fields:
+                    if _lazyiter.leaves_concrete(st, it):
+                        # drained here; only when every step is deterministic (no fork, no exception)
+                        vals = []
+                        while True:
+                            outs = _lazyiter.pull(self, st, it, node)
+                            if len(outs) != 1 or outs[0][0] is not st or outs[0][1] not in ("val", "stop"):
+                                raise Unsupported("lazy iterator consumed where its elements fork or raise at %s" % self.loc(node))
+                            if outs[0][1] == "stop":
+                                return ("concrete", vals)
+                            vals.append(outs[0][2])
+                            if len(vals) > 100000:
+                                raise Unsupported("lazy iterator does not end at %s" % self.loc(node))
+                    aseq = _lazyiter.abstract_seq_of(self, st, it, node)
+                    if aseq is None:
+                        raise Unsupported("lazy iterator with abstract sources at %s" % self.loc(node))
+                    return ("abs", aseq)
+                if o.items is not None:
+                    return ("concrete", list(o.items[o.fields.get("@pos", 0):]))
+                if o.fields.get("@done"):
+                    return ("concrete", [])
+                return ("abs", o.fields["@seq"])
             if o.kind == "dict" and o.items is not None:
                 return ("concrete", [k for k, _ in o.items])
             seq = o.fields.get("@seq")
@@ -958,6 +1006,45 @@ class Interp(object):
                             res.append((s2, k2, v2))
             states = self.dedupe(nxt)
         for s in states:
+            if node.orelse:
+                res.extend(self.exec_block(s, node.orelse))
+            else:
+                res.append((s, "next", None))
+        res.extend((s, "next", None) for s in broke)
+        return res
+
+    def loop_iterator(self, st, node, ref, limit=10000):
+        """for x in <an iterator object over concrete values>: every element drawn advances the iterator for everybody
+        who holds it; a `break` leaves the rest for the next consumer."""
+        res, broke, finished = [], [], []
+        states = [st]
+        steps = 0
+        while states:
+            steps += 1
+            if steps > limit:
+                raise Unsupported("loop over an iterator that does not end at %s" % self.loc(node))
+            nxt = []
+            for s in states:
+                for (s0, k0, elem) in _lazyiter.pull(self, s, ref, node):
+                    if k0 == "stop":
+                        finished.append(s0)
+                        continue
+                    if k0 != "val":
+                        res.append((s0, k0, elem))
+                        continue
+                    for (s1, k1, v1) in self.assign(s0, node.target, elem):
+                        if k1 != "next":
+                            res.append((s1, k1, v1))
+                            continue
+                        for (s2, k2, v2) in self.exec_block(s1, node.body):
+                            if k2 in ("next", "continue"):
+                                nxt.append(s2)
+                            elif k2 == "break":
+                                broke.append(s2)
+                            else:
+                                res.append((s2, k2, v2))
+            states = self.dedupe(nxt)
+        for s in self.dedupe(finished):
             if node.orelse:
                 res.extend(self.exec_block(s, node.orelse))
             else:
@@ -1011,7 +1098,7 @@ class Interp(object):
         work = []
         exits = []
         saved = {}
-        for (st, seq) in inits:
+        for (st, seq, itref) in inits:
             cnt_key = "#iter:" + seq.name
             track_key = "#track:" + seq.name
             outer = (st.ghost.get(cnt_key), st.ghost.get(track_key))
@@ -1024,19 +1111,23 @@ class Interp(object):
                 continue
             seen[key] = True
             self.stats["loop_heads"] += 1
-            work.append((st, seq, outer))
+            # a loop over a fresh iterator sees the whole sequence, like a loop over the sequence itself
+            full = itref is None or not st.obj(itref).fields.get("@started")
+            work.append((st, seq, outer, itref, full))
         while work:
-            head, seq, outer = work.pop()
+            head, seq, outer, itref, full = work.pop()
             cnt_key = "#iter:" + seq.name
             track_key = "#track:" + seq.name
             self.budget -= 1
             if self.budget < 0:
                 raise AnalysisError("state budget exhausted in loop at %s" % self.loc(node))
-            known_n = head.ghost.get("#n:" + seq.name) if self.same_seq_same_length else None
+            known_n = head.ghost.get("#n:" + seq.name) if self.same_seq_same_length and full else None
             cnt_now = head.ghost.get(cnt_key)
+            # an iterator that an earlier loop has drawn from: what is left may be empty whatever the sequence was
+            nonempty = seq.nonempty and full
             # (a) sequence exhausted (an earlier complete loop over the same sequence fixes whether it is empty)
-            if not (seq.nonempty and cnt_now == 0) and not (known_n in (1, GE2) and cnt_now == 0):
-                exits.append((head.fork(), seq, outer))
+            if not (nonempty and cnt_now == 0) and not (known_n in (1, GE2) and cnt_now == 0):
+                exits.append((head.fork(), seq, outer, itref, full))
             if known_n == 0 or (known_n == 1 and cnt_now == 1):
                 continue
             # (b) one more element
@@ -1044,6 +1135,8 @@ class Interp(object):
             before = {name: base.frames[-1].get(name) for (name, _) in base.ghost.get(track_key, ())}
             if self.track_len:
                 base.ghost["#inc"] = ()
+            if itref is not None and not base.obj(itref).fields.get("@started"):
+                base.wobj(itref).fields["@started"] = True
             for (s0, elem, label) in seq.factory(self, base):
                 s0.note("%s: next %s element: %s" % (self.loc(node), seq.name, label))
                 self.emit(s0, ("iter", id(node), seq.name, elem))
@@ -1077,7 +1170,7 @@ class Interp(object):
                             if key not in seen:
                                 seen[key] = True
                                 self.stats["loop_heads"] += 1
-                                work.append((s2, seq, outer))
+                                work.append((s2, seq, outer, itref, full))
                         elif k2 == "break":
                             self.emit(s2, ("loopexit", id(node), seq.name))
                             _restore(s2, cnt_key, outer[0], track_key, None)
@@ -1085,13 +1178,15 @@ class Interp(object):
                         else:
                             res.append((s2, k2, v2))
         final = []
-        for (ex, seq, outer) in exits:
+        for (ex, seq, outer, itref, full) in exits:
             cnt_key = "#iter:" + seq.name
             track_key = "#track:" + seq.name
             self.emit(ex, ("loopexit", id(node), seq.name))
+            if itref is not None:
+                ex.wobj(itref).fields["@done"] = True       # the iterator is exhausted for every later consumer
             if self.track_len:
                 ex.ghost["#len:" + seq.name] = ex.ghost.get(track_key, ())
-            if self.track_len or self.same_seq_same_length:
+            if (self.track_len or self.same_seq_same_length) and full:
                 ex.ghost["#n:" + seq.name] = ex.ghost.get(cnt_key, 0)
             _restore(ex, cnt_key, outer[0], track_key, outer[1])
             final.append(ex)
@@ -1285,3 +1380,4 @@ def _as_load(target):
 
 from . import absexpr as _absexpr      # noqa: E402
 _absexpr.install(Interp)
+from . import lazyiter as _lazyiter    # noqa: E402
